@@ -20,14 +20,50 @@ ASSUMPTIONS = ['reference interpreters A and B (ypv/refA.py, ypv/refB.py) implem
                'engine termination bound: 2000 x reference steps + 100000 engine events']
 
 
+# ---- bounded-exhaustive slice (thorough): all programs of <= 2 facts p(T1,T2) over a 6-term universe, seen through
+# a rule q/2 that calls p twice, x all queries q(S1,S2) with S over the same universe (renamed apart)
+UNIV = [A('a'), A('b'), V('X'), V('Y'), C('f', V('X')), L([V('X')], V('Y'))]
+QUNIV = [A('a'), A('b'), V('Q0'), V('Q1'), C('f', V('Q0')), L([V('Q0')], V('Q1'))]
+
+
+def exh_total():
+    n = len(UNIV) ** 2
+    return (n + n * n) * (len(QUNIV) ** 2)
+
+
+def exh_case(idx):
+    nq = len(QUNIV) ** 2
+    qi = idx % nq
+    pi = idx // nq
+    n = len(UNIV) ** 2
+    heads = []
+    if pi < n:
+        heads = [pi]
+    else:
+        pi -= n
+        heads = [pi // n, pi % n]
+    clauses = [(C('p', UNIV[h // len(UNIV)], UNIV[h % len(UNIV)]), ('true',)) for h in heads]
+    clauses.append((C('q', V('X'), V('Y')), ('and', ('call', C('p', V('X'), V('Z'))), ('call', C('p', V('Z'), V('Y'))))))
+    qargs = [QUNIV[qi // len(QUNIV)], QUNIV[qi % len(QUNIV)]]
+    return clauses, 'q', qargs
+
+
+def EXHAUSTIVE(tier):
+    if tier == 'thorough':
+        return {'universe': [rterm(t) for t in UNIV], 'programs': len(UNIV) ** 2 + len(UNIV) ** 4, 'queries_each': len(QUNIV) ** 2,
+                'cases': exh_total()}
+    return None
+
+
 def plan(tier, seed):
     if tier == 'quick':
         return {'n': 12000, 'deadline': 150, 'floor': {'distinct_nontrivial': 2000, 'answers_compared': 5000}}
-    return {'n': 400000, 'deadline': 540, 'floor': {'distinct_nontrivial': 30000, 'answers_compared': 100000}}
+    return {'n': 250000 + exh_total(), 'deadline': 560, 'exh': exh_total(),
+            'floor': {'distinct_nontrivial': 30000, 'answers_compared': 100000, 'exhaustive_cases': exh_total()}}
 
 
 def setup(tier, seed):
-    return {'real': Real()}
+    return {'real': Real(), 'exh': exh_total() if tier == 'thorough' else 0}
 
 
 def corpus():
@@ -62,6 +98,9 @@ def _case(ctx, clauses, qname, qargs, rng, counters):
 
 
 def run_case(ctx, seed, idx, tier):
+    if idx < ctx['exh']:
+        clauses, qn, qargs = exh_case(idx)
+        return _case(ctx, clauses, qn, qargs, None, {'exhaustive_cases': 1})
     rng = random.Random((seed * 1000003 + idx) * 7 + 1)
     qvars = [V('Q0'), V('Q1'), V('Q2')]
     r = rng.random()
